@@ -72,16 +72,30 @@ func init() {
 	plan := func(quick bool) *SchedPlan {
 		return &SchedPlan{Specs: coreSchedSpecs(quick), Monitors: []MonitorFactory{MonitorC01}, Oracles: []Oracle{OracleC01Quiescent},
 			Bound: func(s *EngSpec, q bool) int {
-				if q || len(s.Threads) > 2 {
-					return 2
+				timed := false
+				for _, t := range s.Threads {
+					for _, st := range t {
+						if st.SleepUntil > 0 {
+							timed = true
+						}
+					}
 				}
-				return 3
+				if q {
+					if timed || len(s.Threads) > 2 {
+						return 2
+					}
+					return 3
+				}
+				if timed || len(s.Threads) > 2 {
+					return 3
+				}
+				return 4
 			},
 			MaxExec: func(s *EngSpec, q bool) int64 {
 				if q {
-					return 6000
+					return 8000
 				}
-				return 400000
+				return 500000
 			}}
 	}
 	Registry["C01"] = func(c *Ctx) int {
